@@ -97,6 +97,8 @@ TransformClauses(pre, c, out, post) ==
          <<"C08_ElabPreserved", wf => C08_ElabPreserved(pre, post, n)>>,
          <<"C08_FreshNames", C08_FreshNames(pre, post, n)>>,
          <<"C08_Idempotent", C08_Idempotent(pre, post, n)>> >>
+    ELSE IF c.op = "flatten" /\ out # "ok" /\ C08_Unique(pre, n) /\ WF(pre) THEN
+      << <<"C09_Accepted", FALSE>> >>            \* flatten of a well-formed, uniquified netlist is never refused
     ELSE IF c.op = "flatten" /\ out = "ok" /\ C08_Unique(pre, n) THEN
       LET wf == C09_WF(pre, post) IN
       << <<"C09_WF", wf>>,
